@@ -1,0 +1,121 @@
+//go:build verif
+
+// Contracts for package sack, read by /verif/govc (comment lines starting with //@).
+
+package sack
+
+import (
+	"encoding/binary"
+	"net/netip"
+
+	"github.com/google/gopacket/layers"
+
+	"github.com/DataDog/datadog-traceroute/packets"
+)
+
+// specInv: representation invariant of a driver that finished its handshake.
+func specInv(s *sackDriver) bool {
+	return s.state != nil && len(s.sendTimes) == int(s.params.ParallelParams.MaxTTL)+1
+}
+
+func specIsTCP(p *packets.FrameParser) bool { return len(p.Layers) >= 2 && int(p.Layers[1]) == 44 }
+func specIsTE4(p *packets.FrameParser) bool { return len(p.Layers) >= 2 && int(p.Layers[1]) == 19 && p.IsTTLExceeded() }
+
+func specInRange(s *sackDriver, t uint32) bool {
+	return uint32(s.params.ParallelParams.MinTTL) <= t && t <= uint32(s.params.ParallelParams.MaxTTL)
+}
+
+// specOnConn: a TCP segment of the probed connection, from target:port to local:port, that is a plain ACK.
+func specOnConn(s *sackDriver, p *packets.FrameParser) bool {
+	tcp := &p.TCP
+	return specIsTCP(p) &&
+		packets.SpecOuterSrc(p) == s.params.Target.Addr() && packets.SpecOuterDst(p) == s.localAddr &&
+		uint16(tcp.SrcPort) == s.params.Target.Port() && uint16(tcp.DstPort) == s.localPort &&
+		!tcp.SYN && !tcp.FIN && !tcp.RST
+}
+
+// specFlowTE: a time-exceeded quoting a segment of the probed connection: destination address and port and,
+// unless relaxed, the quoted source address and port.
+func specFlowTE(s *sackDriver, p *packets.FrameParser) bool {
+	q := p.ICMP4.Payload
+	if !specIsTE4(p) || !packets.SpecQ4ok(q) {
+		return false
+	}
+	l4 := packets.SpecQ4L4(q)
+	if len(l4) < 8 {
+		return false
+	}
+	src := netip.AddrPortFrom(packets.SpecQ4Src(q), binary.BigEndian.Uint16(l4[0:2]))
+	dst := netip.AddrPortFrom(packets.SpecQ4Dst(q), binary.BigEndian.Uint16(l4[2:4]))
+	return dst == s.params.Target && (s.params.LoosenICMPSrc || src == netip.AddrPortFrom(s.localAddr, s.localPort))
+}
+
+// specQuotedRel: the quoted sequence number relative to the connection's initial sequence number (mod 2^32).
+func specQuotedRel(s *sackDriver, p *packets.FrameParser) uint32 {
+	return binary.BigEndian.Uint32(packets.SpecQ4L4(p.ICMP4.Payload)[4:8]) - s.state.localInitSeq
+}
+
+func specPlain4(p *packets.FrameParser) bool {
+	q := p.ICMP4.Payload
+	return packets.SpecQ4Plain(q) && packets.SpecQ4PayLen(q) >= 8
+}
+
+// specSackOpt: option a is a SACK option.
+func specSackOpt(opts []layers.TCPOption, a int) bool {
+	return opts[a].OptionType == layers.TCPOptionKindSACK
+}
+
+// specRel: the left edge of the SACK block starting at byte o of option a, relative to the initial sequence number (mod 2^32).
+func specRel(opts []layers.TCPOption, a int, o int, isn uint32) uint32 {
+	return binary.BigEndian.Uint32(opts[a].OptionData[o:o+4]) - isn
+}
+
+//@ func getMinSack
+//@ safety C09
+//@ ensures[C01.sack.none]     (ret1 != nil) == !exists(a, 0, len(opts), specSackOpt(opts, a) && len(opts[a].OptionData) >= 8)
+//@ ensures[C01.sack.lower]    ret1 == nil ==> forall(a, 0, len(opts), forall(o, 0, len(opts[a].OptionData)-7, specSackOpt(opts, a) && o%8 == 0 ==> ret0 <= uint32(int(be32(opts[a].OptionData, o)) - int(localInitSeq))))
+//@ ensures[C01.sack.attained] ret1 == nil ==> exists(a, 0, len(opts), exists(o, 0, len(opts[a].OptionData)-7, specSackOpt(opts, a) && o%8 == 0 && ret0 == uint32(int(be32(opts[a].OptionData, o)) - int(localInitSeq))))
+//@ ensures[C09.sack.class]    ret1 != nil ==> noRepoErr(ret1)
+//@ modifies nothing
+//@ loop 1 invariant[o.bounds] 0 <= range_i && range_i <= len(opts)
+//@ loop 1 invariant[o.found]  foundSack == exists(a, 0, range_i, specSackOpt(opts, a) && len(opts[a].OptionData) >= 8)
+//@ loop 1 invariant[o.init]   !foundSack ==> minSack == 4294967295
+//@ loop 1 invariant[o.lower]  forall(a, 0, range_i, forall(o, 0, len(opts[a].OptionData)-7, specSackOpt(opts, a) && o%8 == 0 ==> minSack <= uint32(int(be32(opts[a].OptionData, o)) - int(localInitSeq))))
+//@ loop 1 invariant[o.att]    foundSack ==> exists(a, 0, range_i, exists(o, 0, len(opts[a].OptionData)-7, specSackOpt(opts, a) && o%8 == 0 && minSack == uint32(int(be32(opts[a].OptionData, o)) - int(localInitSeq))))
+//@ loop 2 invariant[i.suffix] 0 <= range_i && range_i < len(opts) && specSackOpt(opts, range_i) && suffixOf(data, opts[range_i].OptionData) && (len(opts[range_i].OptionData)-len(data))%8 == 0
+//@ loop 2 invariant[i.found]  foundSack == (exists(a, 0, range_i, specSackOpt(opts, a) && len(opts[a].OptionData) >= 8) || len(opts[range_i].OptionData)-len(data) >= 8)
+//@ loop 2 invariant[i.init]   !foundSack ==> minSack == 4294967295
+//@ loop 2 invariant[i.lower1] forall(a, 0, range_i, forall(o, 0, len(opts[a].OptionData)-7, specSackOpt(opts, a) && o%8 == 0 ==> minSack <= uint32(int(be32(opts[a].OptionData, o)) - int(localInitSeq))))
+//@ loop 2 invariant[i.lower2] forall(o, 0, len(opts[range_i].OptionData)-len(data)-7, o%8 == 0 ==> minSack <= uint32(int(be32(opts[range_i].OptionData, o)) - int(localInitSeq)))
+//@ loop 2 invariant[i.att]    foundSack ==> (exists(a, 0, range_i, exists(o, 0, len(opts[a].OptionData)-7, specSackOpt(opts, a) && o%8 == 0 && minSack == uint32(int(be32(opts[a].OptionData, o)) - int(localInitSeq)))) || exists(o, 0, len(opts[range_i].OptionData)-len(data)-7, o%8 == 0 && minSack == uint32(int(be32(opts[range_i].OptionData, o)) - int(localInitSeq))))
+
+//@ func (*sackDriver).getRTTFromRelSeq
+//@ inline
+//@ safety C09
+//@ requires[pre.inv]      s != nil && specInv(s)
+//@ requires[pre.past]     forall(k, 0, len(s.sendTimes), s.sendTimes[k] <= now())
+//@ ensures[C01.rtt.ok]    (ret1 == nil) == (specInRange(s, relSeq) && s.sendTimes[relSeq] != 0)
+//@ ensures[C05.rtt.val]   ret1 == nil ==> ret0 >= 0 && ret0 == now() - s.sendTimes[relSeq]
+//@ ensures[C09.rtt.class] ret1 != nil ==> noRepoErr(ret1)
+//@ modifies ghost clock
+
+//@ func (*sackDriver).handleProbeLayers
+//@ safety C09
+//@ requires[pre.nonnil]     s != nil && parser != nil
+//@ requires[pre.parsed]     packets.SpecParsed(parser)
+//@ requires[pre.inv]        specInv(s)
+//@ requires[pre.past]       forall(k, 0, len(s.sendTimes), s.sendTimes[k] <= now())
+//@ ensures[C09.xor]         (ret0 == nil) != (ret1 == nil)
+//@ ensures[C09.class]       ret1 != nil ==> chain(ret1, *common.ReceiveProbeNoPktError) || chain(ret1, *common.BadPacketError) || chain(ret1, *NotSupportedError)
+//@ ensures[C09+C20.nosack]  ret1 != nil && chain(ret1, *NotSupportedError) ==> specOnConn(s, parser) && !exists(a, 0, len(parser.TCP.Options), specSackOpt(parser.TCP.Options, a) && len(parser.TCP.Options[a].OptionData) >= 8)
+//@ ensures[C01.sound.kind]  ret0 != nil ==> specIsTCP(parser) || specIsTE4(parser)
+//@ ensures[C01.sound.ack]   ret0 != nil && specIsTCP(parser) ==> specOnConn(s, parser) && specInRange(s, uint32(ret0.TTL)) && s.sendTimes[ret0.TTL] != 0
+//@ ensures[C01.sound.ack.min] ret0 != nil && specIsTCP(parser) ==> forall(a, 0, len(parser.TCP.Options), forall(o, 0, len(parser.TCP.Options[a].OptionData)-7, specSackOpt(parser.TCP.Options, a) && o%8 == 0 ==> int(ret0.TTL) <= int(uint32(int(be32(parser.TCP.Options[a].OptionData, o)) - int(s.state.localInitSeq)))))
+//@ ensures[C01.sound.ack.att] ret0 != nil && specIsTCP(parser) ==> exists(a, 0, len(parser.TCP.Options), exists(o, 0, len(parser.TCP.Options[a].OptionData)-7, specSackOpt(parser.TCP.Options, a) && o%8 == 0 && int(ret0.TTL) == int(uint32(int(be32(parser.TCP.Options[a].OptionData, o)) - int(s.state.localInitSeq)))))
+//@ ensures[C01.sound.te]    ret0 != nil && specIsTE4(parser) ==> specFlowTE(s, parser) && specQuotedRel(s, parser) == uint32(ret0.TTL) && specInRange(s, uint32(ret0.TTL)) && s.sendTimes[ret0.TTL] != 0
+//@ ensures[C01.addr]        ret0 != nil ==> ret0.IP == packets.SpecOuterSrc(parser)
+//@ ensures[C02.compl.te]    specPlain4(parser) && specFlowTE(s, parser) && specInRange(s, specQuotedRel(s, parser)) && s.sendTimes[specQuotedRel(s, parser)] != 0 ==> ret0 != nil && uint32(ret0.TTL) == specQuotedRel(s, parser)
+//@ ensures[C04.dest]        ret0 != nil ==> (ret0.IsDest == (specIsTCP(parser) || packets.SpecOuterSrc(parser) == s.params.Target.Addr()))
+//@ ensures[C05.rtt]         ret0 != nil ==> ret0.RTT >= 0 && ret0.RTT == now() - s.sendTimes[ret0.TTL]
+//@ ensures[C01.fresh]       ret0 != nil ==> fresh(ret0)
+//@ modifies ghost clock
